@@ -539,7 +539,7 @@ func encodeTransactionResponseBasedOnWantedEncoding(
 				if tx.Message.IsVersioned() {
 					err := tx.Message.ResolveLookups()
 					if err != nil {
-						panic(err)
+						return nil, nil, fmt.Errorf("failed to resolve address table lookups: %w", err)
 					}
 				}
 			}
